@@ -223,7 +223,7 @@ def make_dense(rng, n, m, grid, rough):
     return DenseFunctionalData(DenseArgvals({"input_dim_0": t}), DenseValues(x))
 
 
-def api_fit(kind, method, data, s):
+def api_fit(kind, method, data, s, default_exp=False):
     from FDApy.preprocessing.dim_reduction.ufpca import UFPCA
     from FDApy.preprocessing.dim_reduction.mfpca import MFPCA
     from FDApy.representation.functional_data import IrregularFunctionalData
@@ -237,8 +237,10 @@ def api_fit(kind, method, data, s):
                 f.fit(data, method_smoothing=None)
             ef = np.asarray(f.eigenfunctions.values)
             return np.asarray(f.eigenvalues, dtype=float), ef.reshape(ef.shape[0], -1)
+        # default_exp: the optional size of the univariate expansions is left to its default
         f = MFPCA(n_components=s, method=method,
-                  univariate_expansions=[{"method": "UFPCA", "n_components": 3} for _ in data.data])
+                  univariate_expansions=[({"method": "UFPCA"} if default_exp else {"method": "UFPCA", "n_components": 3})
+                                         for _ in data.data])
         f.fit(data, method_smoothing=None)
         parts = []
         for c in f.eigenfunctions.data:
@@ -297,7 +299,7 @@ def api_level(rep, rng, quick):
                                                make_dense(rng, n, m + 1, "uniform", not rough)])
         for method in ("covariance", "inner-product"):
             try:
-                full_val, full_fun = api_fit(kind, method, data, None)
+                full_val, full_fun = api_fit(kind, method, data, None, default_exp=(i % 8 == 7))
             except Exception as e:  # noqa: BLE001
                 rep.notes.append(f"{kind}/{method} full fit raised {type(e).__name__}: {e}"[:200])
                 continue
@@ -316,7 +318,7 @@ def api_level(rep, rng, quick):
                 if isinstance(s, int) and s > rank:
                     continue
                 try:
-                    val, fun = api_fit(kind, method, data, s)
+                    val, fun = api_fit(kind, method, data, s, default_exp=(i % 8 == 7))
                 except Exception as e:  # noqa: BLE001
                     rep.violation(f"{kind}({method}) with n_components={s} raised {type(e).__name__}",
                                   {"level": "api", "estimator": kind, "method": method, "sel": s,
